@@ -344,6 +344,58 @@ theorem scanCommentType2_bnd (s : Bytes) : Bnd s.length (s.length + 2) (scanComm
   cases ok <;> exact ⟨_, _, rfl, by bnd, by bnd⟩
 
 
+/-- the C13 literal codec model (`Literal.scanString`, value or `none`) is the success case of the tokenizer's loop -/
+theorem scanStr_of_literal (delim : UInt8) (first : Bool) (s v r : Bytes)
+    (h : Literal.scanString delim first s = some (v, r)) : scanStr delim first s = (true, v, r) := by
+  fun_induction Literal.scanString delim first s generalizing v r with
+  | case1 => cases h
+  | case2 first c hc => cases h
+  | case3 first c hc hd => simp only [Option.some.injEq, Prod.mk.injEq] at h; obtain ⟨rfl, rfl⟩ := h; simp [scanStr, hc, hd]
+  | case4 first c hc hd => simp [Literal.consR] at h
+  | case5 first c e rest hc hx ih =>
+    cases hr : Literal.scanString delim false rest with
+    | none => rw [hr] at h; simp [Literal.consR] at h
+    | some p =>
+      obtain ⟨v', r'⟩ := p
+      rw [hr] at h
+      simp only [Literal.consR, Option.some.injEq, Prod.mk.injEq] at h
+      obtain ⟨rfl, rfl⟩ := h
+      have := ih v' r' hr
+      simp only [scanStr, hc, hx, if_true, this, consB]
+  | case6 first c e rest hc hx ih =>
+    cases hr : Literal.scanString delim false rest with
+    | none => rw [hr] at h; simp [Literal.consR] at h
+    | some p =>
+      obtain ⟨v', r'⟩ := p
+      rw [hr] at h
+      simp only [Literal.consR, Option.some.injEq, Prod.mk.injEq] at h
+      obtain ⟨rfl, rfl⟩ := h
+      have := ih v' r' hr
+      simp [scanStr, hc, hx, this, consB]
+  | case7 first c e rest hc hd he ih =>
+    cases hr : Literal.scanString delim false rest with
+    | none => rw [hr] at h; simp [Literal.consR] at h
+    | some p =>
+      obtain ⟨v', r'⟩ := p
+      rw [hr] at h
+      simp only [Literal.consR, Option.some.injEq, Prod.mk.injEq] at h
+      obtain ⟨rfl, rfl⟩ := h
+      have := ih v' r' hr
+      simp [scanStr, hc, hd, he, this, consB]
+  | case8 first c e rest hc hd he =>
+    simp only [Option.some.injEq, Prod.mk.injEq] at h; obtain ⟨rfl, rfl⟩ := h
+    simp [scanStr, hc, hd, he]
+  | case9 first c e rest hc hd ih =>
+    cases hr : Literal.scanString delim first (e :: rest) with
+    | none => rw [hr] at h; simp [Literal.consR] at h
+    | some p =>
+      obtain ⟨v', r'⟩ := p
+      rw [hr] at h
+      simp only [Literal.consR, Option.some.injEq, Prod.mk.injEq] at h
+      obtain ⟨rfl, rfl⟩ := h
+      have := ih v' r' hr
+      simp [scanStr, hc, hd, this, consB]
+
 /-! ## `ExtractMysqlComment` -/
 
 theorem decodeRune_width (b : UInt8) (r : Bytes) : (Wire.Bytea.decodeRune (b :: r)).2 ≤ (b :: r).length := by
